@@ -90,17 +90,17 @@ def build_cxx(name, sources, deps=None, flags=None, libs=None, compiler="g++", t
     exe = os.path.join(bdir, name)
     if os.path.exists(exe):
         return exe
-    # drop stale builds of the same harness
+    # drop stale builds of the same harness (not recent ones: another check may be using them right now)
     for old in glob.glob(os.path.join(CACHE, "bld-%s-*" % name)):
-        shutil.rmtree(old, ignore_errors=True)
+        if time.time() - os.path.getmtime(old) > 3 * 3600:
+            shutil.rmtree(old, ignore_errors=True)
     os.makedirs(bdir, exist_ok=True)
     cmd = [compiler, "-std=c++17", "-DHEX_VERIF", "-I", REPO, "-I", HARNESS] + flags + srcs + \
-          [os.path.join(REPO, "hex.cpp")] + ["-o", exe + ".tmp"] + (libs or [])
+          [os.path.join(REPO, "hex.cpp")] + ["-o", exe + ".tmp%d" % os.getpid()] + (libs or [])
     p = sh(cmd, timeout=timeout)
     if p.returncode != 0:
-        shutil.rmtree(bdir, ignore_errors=True)
         raise MachineryError("harness build failed: %s\n%s" % (" ".join(cmd), p.stderr.decode(errors="replace")[-4000:]))
-    os.rename(exe + ".tmp", exe)
+    os.rename(exe + ".tmp%d" % os.getpid(), exe)
     return exe
 
 
@@ -116,7 +116,8 @@ def build_repo_tools(with_verilator=False, timeout=1800):
     for old in glob.glob(os.path.join(CACHE, "tools%s-*" % ("V" if with_verilator else ""))):
         if os.path.basename(old).startswith("tools-") and with_verilator:
             continue
-        shutil.rmtree(old, ignore_errors=True)
+        if time.time() - os.path.getmtime(old) > 3 * 3600:
+            shutil.rmtree(old, ignore_errors=True)
     os.makedirs(bdir, exist_ok=True)
     targets = ["hexasm", "hexsim", "xcmp", "xrun"] + (["hextb"] if with_verilator else [])
     sh(["cmake", "-G", "Ninja", "-S", REPO, "-B", bdir, "-DCMAKE_BUILD_TYPE=RelWithDebInfo",
@@ -314,7 +315,7 @@ class Check:
         ev = {"property_id": self.pid, "tier": self.tier, "seed": seed(), "level": self.level,
               "coverage": self.cov, "assumptions": self.assumptions, "wall_s": round(wall, 2),
               "violations": len(self.violations)}
-        with open(os.path.join(EVID, self.pid + ".json"), "w") as f:
+        with open(os.path.join(EVID, self.pid + os.environ.get("VERIF_EVID_SUFFIX", "") + ".json"), "w") as f:
             json.dump(ev, f, indent=1, default=str)
         for f in self.known_hits:
             print("KNOWN-FINDING: property=%s %s" % (self.pid, f.get("what", f["id"])))
